@@ -4,6 +4,7 @@ Monitor: gv/monitors.py:BoundsTracer wraps bounds()/tighten_bounds() of every Bo
 package (icontract snapshot/ensure on tighten_bounds), so nested edits, matchers and searches are
 observed mid-refinement while real diffs are driven in several ways.  The engine's own
 "bounds widened" log warnings are monitor events too; non-termination is a logical event budget."""
+import copy
 import contextlib
 import os
 import sys
@@ -47,6 +48,9 @@ def plan(tier, seed):
     for k in range(2 if q else 8):
         specs.append({"stratum": "json-deep-and-wide", "family": "json", "n": 10 if q else 80, "k": k, "clean": True, "deepwide": True,
                       "case_timeout": 240, "shrink": False})
+    for k in range(2 if q else 8):
+        specs.append({"stratum": "collections-still-expanding-while-sub-edits-finish", "n": 120 if q else 2000, "k": k, "clean": True,
+                      "expanding": True})
     per_f = 250 if q else 5000
     for fam in ["basic", "xml", "csv", "plist", "dataclass", "pyobj"]:
         specs.append({"stratum": f"family-{fam}", "family": fam, "n": per_f, "k": 0, "clean": True})
@@ -61,6 +65,45 @@ def plan(tier, seed):
 def gen_cases(spec, ctx):
     from gv.props import c01
     r = ctx.rng
+    if spec.get("expanding"):
+        # edit collections (mappings under strategy none, the plist wrapper) with many sub-edits: the collection is still listing
+        # its sub-edits while early ones -- nested mappings with several multi-step changes -- finish refining at different times
+        def word(n_):
+            return "".join(r.choice("abcdefgh") for _ in range(n_))
+        for _ in range(spec["n"]):
+            nkeys = r.randint(5, 14)
+            a = {}
+            for i in range(nkeys):
+                x = r.random()
+                if x < 0.35:
+                    a[f"k{i:02d}"] = {"s": word(r.randint(3, 9)), "t": [r.randint(2, 9) for _ in range(r.randint(1, 4))],
+                                      "u": word(r.randint(2, 6)), "n": r.randint(2, 99)}
+                elif x < 0.6:
+                    a[f"k{i:02d}"] = word(r.randint(2, 10))
+                else:
+                    a[f"k{i:02d}"] = r.choice([2, 3, [2, 3], "same", {"z": 2}])
+            b = copy.deepcopy(a)
+            for key in r.sample(list(b), r.randint(1, 3)):
+                v = b[key]
+                if isinstance(v, dict) and "s" in v:
+                    for f in r.sample(["s", "t", "u", "n"], r.randint(2, 3)):
+                        if f in ("s", "u"):
+                            v[f] = v[f][:-1] + word(2) if r.random() < 0.5 else word(len(v[f]))
+                        elif f == "t":
+                            v[f] = v[f][1:] + [r.randint(2, 9)]
+                        else:
+                            v[f] = v[f] + 1
+                elif isinstance(v, str):
+                    b[key] = v + word(1)
+                else:
+                    b[key] = "changed"
+            fam = r.choice(["json", "json", "plist"])
+            case = {"family": fam, "a": a, "b": b, "ds": "none" if fam == "json" else r.choice(gen.DS), "le": r.choice(gen.LE)}
+            case["mode"] = r.choice(MODES)
+            case["quiet"] = r.random() < 0.5
+            case["k"] = r.randint(0, 6) if case["mode"] == "stop-resume" else r.randrange(1 << 20)
+            yield case
+        return
     if spec.get("direct"):
         for _ in range(spec["n"]):
             prof = gen.CLEAN
